@@ -192,3 +192,7 @@ MUTANTS += [
     dict(property='C01', name='_getEvalParam puts the parameters before the time', file=DETF, old="        return eval_param + self._paramValue", new="        return eval_param[:-1] + self._paramValue + eval_param[-1:]"),
     dict(property='C06', name='constructor stores the times with t0 prepended as observation times', file=BLF, old="        self._observeT = t.copy()", new="        self._observeT = np.insert(t, 0, t0)"),
 ]
+MUTANTS += [
+    dict(property='C01', name='reactant matrix: death accumulates instead of marking', file=BASEF, old="                    self._lambdaMat[origin_index, event_index] = 1\n                elif transition.transition_type==TransitionType.T:", new="                    self._lambdaMat[origin_index, event_index] += 1\n                elif transition.transition_type==TransitionType.T:"),
+    dict(property='C01', name='reactant matrix: transfer destination not marked', file=BASEF, old="                    self._lambdaMat[origin_index, event_index] = 1\n                    self._lambdaMat[destination_index, event_index] = 1", new="                    self._lambdaMat[origin_index, event_index] = 1"),
+]
